@@ -34,9 +34,16 @@ use thiserror::Error as ThisError;
 pub enum FarewellError {
     /// Call results should be empty at the end of execution thanks to a execution invariant.
     #[error(
-        "after finishing execution of supplied AIR, there are some unprocessed call results: `{0:?}`, probably a wrong call_id used"
+        "after finishing execution of supplied AIR, there are some unprocessed call results: `{}`, probably a wrong call_id used",
+        sorted_call_results(.0)
     )]
     UnprocessedCallResult(CallResults),
+}
+
+/// Renders call results ordered by call id, so that the message doesn't depend on the hash map iteration order.
+fn sorted_call_results(call_results: &CallResults) -> String {
+    let sorted = call_results.iter().collect::<std::collections::BTreeMap<_, _>>();
+    format!("{sorted:?}")
 }
 
 impl ToErrorCode for FarewellError {
